@@ -44,17 +44,51 @@ impl std::error::Error for Error {}
 #[derive(Debug, Default, Clone)]
 pub struct Client;
 
+#[derive(Debug, Default)]
+pub struct ClientBuilder;
+
+impl ClientBuilder {
+    pub fn timeout(self, _d: std::time::Duration) -> Self {
+        self
+    }
+    pub fn connect_timeout(self, _d: std::time::Duration) -> Self {
+        self
+    }
+    pub fn user_agent<V: AsRef<str>>(self, _v: V) -> Self {
+        self
+    }
+    pub fn build(self) -> Result<Client, Error> {
+        Ok(Client)
+    }
+}
+
 impl Client {
     pub fn new() -> Self {
         Client
     }
 
+    pub fn builder() -> ClientBuilder {
+        ClientBuilder
+    }
+
+    fn request(&self, method: &'static str, url: &str) -> RequestBuilder {
+        RequestBuilder { method, url: url.to_string(), body: None, query: Vec::new(), err: None }
+    }
+
     pub fn get<U: AsRef<str>>(&self, url: U) -> RequestBuilder {
-        RequestBuilder { method: "GET", url: url.as_ref().to_string(), body: None, err: None }
+        self.request("GET", url.as_ref())
     }
 
     pub fn post<U: AsRef<str>>(&self, url: U) -> RequestBuilder {
-        RequestBuilder { method: "POST", url: url.as_ref().to_string(), body: None, err: None }
+        self.request("POST", url.as_ref())
+    }
+
+    pub fn put<U: AsRef<str>>(&self, url: U) -> RequestBuilder {
+        self.request("PUT", url.as_ref())
+    }
+
+    pub fn delete<U: AsRef<str>>(&self, url: U) -> RequestBuilder {
+        self.request("DELETE", url.as_ref())
     }
 }
 
@@ -62,6 +96,7 @@ pub struct RequestBuilder {
     method: &'static str,
     url: String,
     body: Option<Vec<u8>>,
+    query: Vec<String>,
     err: Option<String>,
 }
 
@@ -74,11 +109,51 @@ impl RequestBuilder {
         self
     }
 
+    pub fn body<B: Into<Vec<u8>>>(mut self, b: B) -> Self {
+        self.body = Some(b.into());
+        self
+    }
+
+    /// Like reqwest: the pairs are url-encoded and appended to the query string.
+    pub fn query<T: Serialize + ?Sized>(mut self, v: &T) -> Self {
+        match serde_urlencoded::to_string(v) {
+            Ok(q) => {
+                if !q.is_empty() {
+                    self.query.push(q);
+                }
+            }
+            Err(e) => self.err = Some(format!("query: {e}")),
+        }
+        self
+    }
+
+    pub fn header<K: AsRef<str>, V: AsRef<str>>(self, _k: K, _v: V) -> Self {
+        self
+    }
+
+    pub fn timeout(self, _d: std::time::Duration) -> Self {
+        self
+    }
+
+    pub fn bearer_auth<T: std::fmt::Display>(self, _t: T) -> Self {
+        self
+    }
+
     pub async fn send(self) -> Result<Response, Error> {
         if let Some(e) = self.err {
             return Err(Error(e));
         }
-        let url = url::Url::parse(&self.url).map_err(|e| Error(format!("bad url {:?}: {e}", self.url)))?;
+        let mut url = url::Url::parse(&self.url).map_err(|e| Error(format!("bad url {:?}: {e}", self.url)))?;
+        if !self.query.is_empty() {
+            let mut q = url.query().map(|s| s.to_string()).unwrap_or_default();
+            for part in &self.query {
+                if !q.is_empty() {
+                    q.push('&');
+                }
+                q.push_str(part);
+            }
+            url.set_query(Some(&q));
+        }
         let mut target = url.path().to_string();
         if let Some(q) = url.query() {
             target.push('?');
@@ -93,18 +168,58 @@ impl RequestBuilder {
     }
 }
 
+#[derive(Clone, Copy, Debug, PartialEq, Eq)]
+pub struct StatusCode(pub u16);
+
+impl StatusCode {
+    pub fn as_u16(&self) -> u16 {
+        self.0
+    }
+    pub fn is_success(&self) -> bool {
+        (200..300).contains(&self.0)
+    }
+    pub fn is_client_error(&self) -> bool {
+        (400..500).contains(&self.0)
+    }
+    pub fn is_server_error(&self) -> bool {
+        (500..600).contains(&self.0)
+    }
+}
+
+impl fmt::Display for StatusCode {
+    fn fmt(&self, f: &mut fmt::Formatter<'_>) -> fmt::Result {
+        write!(f, "{}", self.0)
+    }
+}
+
 pub struct Response {
     status: u16,
     body: Vec<u8>,
 }
 
 impl Response {
-    pub fn status(&self) -> u16 {
-        self.status
+    pub fn status(&self) -> StatusCode {
+        StatusCode(self.status)
+    }
+
+    pub fn error_for_status(self) -> Result<Response, Error> {
+        if (400..600).contains(&self.status) {
+            Err(Error(format!("HTTP status {}", self.status)))
+        } else {
+            Ok(self)
+        }
     }
 
     /// Like reqwest: decodes the body whatever the status was.
     pub async fn json<T: DeserializeOwned>(self) -> Result<T, Error> {
         serde_json::from_slice::<T>(&self.body).map_err(|e| Error(format!("error decoding response body (status {}): {e}", self.status)))
+    }
+
+    pub async fn text(self) -> Result<String, Error> {
+        Ok(String::from_utf8_lossy(&self.body).into_owned())
+    }
+
+    pub async fn bytes(self) -> Result<Vec<u8>, Error> {
+        Ok(self.body)
     }
 }
